@@ -441,7 +441,16 @@ let cons_cmd c cmd t seq =
     let ((w, sy), _) = forward_dynamics_constraints fo m m.ws q qd (zeros n_qd) c.crows fe in
     setw c w;
     let nu = List.length (List.filter (fun b -> not b) c.act) in
-    let gp = gpt sy.cG c.act in
+    line "o" seq "fullact_G" (fun () -> omat sy.cG);
+    (* the rank decision is judged on the Jacobian the IMPLEMENTATION's test saw (rounding noise in it can turn a
+       structurally zero pivot into one that Eigen's default threshold accepts); the model's Jacobian is compared
+       with it entry by entry through the fullact_G line *)
+    let nrows = List.length sy.cG in
+    let gsrc = match Hashtbl.find_opt impl_tbl (!cur_case, seq, "fullact_G") with
+      | Some l when nrows > 0 && List.length l = nrows * n_qd ->
+        List.init nrows (fun i -> List.init n_qd (fun j -> List.nth l (i * n_qd + j)))
+      | _ -> sy.cG in
+    let gp = gpt gsrc c.act in
     let gmax = List.fold_left (fun m row -> List.fold_left (fun m x -> max m (abs_float x)) m row) 0. gp in
     if nu > 0 && gp <> [] && (gmax < 1e-9 || not (rank_clear gp)) then
       (* G P^T is zero up to rounding noise: a rank decision on noise is not compared *)
@@ -1008,11 +1017,12 @@ let run_line c (l : string) seq =
         let oq q = od q.qx; od q.qy; od q.qz; od q.qw in
         let rbi () = let ms = num t in let cm = v3 t in let ic = m3 t in rbi_from_mci fo ms cm ic in
         let post = ref None in
+        let spec_s : (unit -> unit) option ref = ref None in   (* the operator's matrix definition, evaluated independently *)
         line "o" seq ("l1_" ^ op) (fun () ->
           match op with
-          | "apply" -> let x = st () in osv (st_apply fo x (sv t))
-          | "applyT" -> let x = st () in osv (st_applyT fo x (sv t))
-          | "applyAdj" -> let x = st () in osv (st_applyAdj fo x (sv t))
+          | "apply" -> let x = st () in let v = sv t in osv (st_apply fo x v); spec_s := Some (fun () -> osv (m66v fo (st_toMatrix fo x) v))
+          | "applyT" -> let x = st () in let v = sv t in osv (st_applyT fo x v); spec_s := Some (fun () -> osv (m66v fo (st_toMatrixTranspose fo x) v))
+          | "applyAdj" -> let x = st () in let v = sv t in osv (st_applyAdj fo x v); spec_s := Some (fun () -> osv (m66v fo (st_toMatrixAdjoint fo x) v))
           | "inv" -> ost (st_inv fo (st ()))
           | "mul" -> let x = st () in let y = st () in ost (st_mul fo x y)
           | "tomat" -> ovec (m66list (st_toMatrix fo (st ())))
@@ -1021,17 +1031,18 @@ let run_line c (l : string) seq =
           | "rbiapply" -> let x = st () in ovec (m66list (rbi_toMatrix fo (st_apply_rbi fo x (rbi ()))))
           | "rbiapplyT" -> let x = st () in ovec (m66list (rbi_toMatrix fo (st_applyT_rbi fo x (rbi ()))))
           | "rbimat" -> let _ = st () in ovec (m66list (rbi_toMatrix fo (rbi ())))
-          | "rbimulv" -> let i = rbi () in osv (rbi_mulv fo i (sv t))
+          | "rbimulv" -> let i = rbi () in let v = sv t in osv (rbi_mulv fo i v); spec_s := Some (fun () -> osv (m66v fo (rbi_toMatrix fo i) v))
           | "crossm" -> let a = sv t in osv (crossm fo a (sv t))
           | "crossf" -> let a = sv t in osv (crossf fo a (sv t))
           | "qmul" -> let a = q4 () in oq (qmul fo a (q4 ()))
           | "qtomat" -> om3 (qtoMatrix fo (q4 ()))
           | "qfrommat" -> let e = m3 t in let qm = qfromMatrix fo e in oq qm; post := Some (e, qm)
-          | "qrot" -> let a = q4 () in ov3 (qrotate fo a (v3 t))
+          | "qrot" -> let a = q4 () in let v = v3 t in ov3 (qrotate fo a v); spec_s := Some (fun () -> ov3 (m3v fo (qtoMatrix fo a) v))
           | "qomega" -> let a = q4 () in oq (qomegaToQDot fo a (v3 t))
           | "xrot" -> let ang = num t in ost (xrot fo ang (v3 t))
           | "gauss" -> let n = integer t in let a = List.init n (fun _ -> List.init n (fun _ -> num t)) in let b = vec t in ovec (gauss_elim_pivot fo a b)
           | _ -> os "unknown-op");
+        (match !spec_s with Some f -> line "s" seq ("l1_" ^ op) f | None -> ());
         (match !post with
          | Some (e, qm) ->
            (* round trip on the implementation's quaternion: unit norm and toMatrix (fromMatrix E) = E *)
